@@ -29,11 +29,11 @@ def explore(scen, cfg, bound, shards=1, cache=True, race=False, timeout=None, ma
     return ts
 
 
-def seq(check, tier, shards=1, extra=None):
+def seq(check, tier, shards=1, extra=None, race=False):
     ts = []
     for i in range(shards):
         argv = ["seq", "-check", check, "-tier", tier, "-shard", "%d/%d" % (i, shards)] + (extra or [])
-        ts.append({"kind": "seq", "argv": argv, "group": check})
+        ts.append({"kind": "seq", "argv": argv, "group": check, "race": race})
     return ts
 
 
@@ -183,6 +183,9 @@ def tasks_c16(tier, seed):
         ts += explore(s, w1, b, race=True, timeout=to)
         ts += explore(s, "w1-in1-tagged-route", b, race=True, shards=2, timeout=to)
     ts += explore("Q1s", "w2-in1-tagged-route", b, race=True, shards=4, timeout=to)
+    ts += explore("Q2", CFG_DEFAULT, 2, race=True, shards=2, timeout=to)
+    ts += explore("Q2", "w2-in4-literal-mount", 2, race=True, shards=2, timeout=to)
+    ts += seq("burst", tier, race=True)
     for s in ["QE1-model", "QE1-panic", "QE2", "QEfail", "QEconc", "QEchain", "QEshutdown"]:
         ts += explore(s, w1, b, race=True, timeout=to)
     ts += STORE_RACE_TASKS(tier)
@@ -369,6 +372,8 @@ def merge(prop, tier, seed, P, results):
         cov["executions_of_real_code"] = cov["evaluations"]
         cov["seq_checks"] = {}
         for r in sq:
+            for log in r.get("_racelogs") or []:
+                viol.append({"desc": "C16: data race report: " + log[:3000], "scenario": r["check"], "replay": {"kind": "racelog", "log": log}})
             c = cov["seq_checks"].setdefault(r["check"], {"evaluations": 0, "distinct_nontrivial": 0, "exhaustive": True, "excluded_unspecified": 0, "extra": {}})
             c["evaluations"] += r["evaluations"]
             c["distinct_nontrivial"] += r["distinct_nontrivial"]
